@@ -14,6 +14,11 @@ def run(F, rep, tier):
     # 1 + 2 + 3: declared length = emitted length, canonical emission order, reader accepts what the writer emits
     emission.rule_emission(F, rep, M)
     model.rule_L1(rep, M)
+    # the second read must reproduce the frame data: columns stay balanced and frames bracketed
+    M2 = model.Model(F, rep, want=("with_capacity", "push_null", "read_push"))
+    model.rule_L2(rep, M2)
+    from props import C04
+    C04.bracketing_rule(F, reach.Graph(F), rep, M2)
     # the declared length written into the header is raw_size's value, computed before anything is written
     b = F.body("io::slippi::ser::write")
     txt = tir.pretty(b["tir"]["value"])
